@@ -241,20 +241,139 @@ def synapse_stream(ctx, ex, thorough):
                     ex.nontriv(("synapse", kind, delayed, json.dumps(sc), B))
 
 
-# ------------------------------------------------------------------------------------------ (C) connections
-def connection_stream(ctx, ex, thorough):
+def synapse_long_stream(ctx, ex, thorough):
+    """long histories with per-sample ACTIVITY WINDOWS, in both floating-point precisions: one sample of the batch (at a random batch
+    index) receives spikes during its first 1-3 steps only and is silent for the rest of the run, one is active throughout, the
+    others have random windows (late start / early stop).  Time constants are short (0.5, 1 or 2 steps), so that over the run the
+    quiet sample's state decays through the whole dynamic range of the dtype (down to denormals in float32) while its neighbours
+    stay at full scale — samples of very different magnitude share the batched tensors.  Same observables as the short synapse
+    stream: forward output, current_at / spike_at with per-sample selectors, records, pointers; torch.equal per sample"""
     rng = ctx.rng
-    T = 20 if thorough else 10
+    T = 112 if thorough else 80
+    try:
+        for kind in nb.SYNAPSES:
+            for delayed in (False, True):
+                for rep in range(10 if thorough else 4):
+                    dtype = torch.float32 if rep % 2 else torch.float64
+                    torch.set_default_dtype(dtype)
+                    dt = rng.choice([0.5, 1.0])
+                    ratio = [0.5, 1.0, 2.0][(rep // 2 + rng.randrange(3)) % 3]
+                    sc = nb.synapse_cfg(rng, kind)
+                    sc["tc"] = ratio * dt              # singleexp: time constant; doubleexp: decay 2·tc, rise tc/2 (see netbuild.synapse_constructor)
+                    sc["tc_rise"] = ratio * dt / 2
+                    delay = rng.choice([2.0, 3.0]) if delayed else 0.0
+                    shape = rng.choice([(3,), (2, 2)])
+                    B = rng.choice([2, 3, 4])
+                    g = nb.gen(rng.randrange(2**31))
+                    order = list(range(B))
+                    rng.shuffle(order)
+                    windows = [None] * B
+                    windows[order[0]] = (0, rng.choice([1, 2, 3]))            # the quiet sample
+                    windows[order[1]] = (0, T)                                 # the busy sample
+                    for b in order[2:]:
+                        a = rng.randrange(0, T // 2)
+                        windows[b] = (a, rng.randrange(a + 1, T + 1))
+                    big = nb.build_synapse(sc, shape, dt, delay, B)
+                    singles = [nb.build_synapse(sc, shape, dt, delay, 1) for _ in range(B)]
+                    for s in singles:
+                        copy_params(big, s)
+                    case = {"stream": "synapse-long", "class": kind, "cfg": sc, "dt": dt, "delay": delay, "shape": list(shape), "batch": B,
+                            "dtype": str(dtype), "steps": T, "activity_windows": windows}
+                    ex.count("synapse-long", kind + ("+delay" if delayed else ""))
+                    ex.count("synapse-long-dtype", str(dtype))
+                    ex.count("synapse-long-time-constant-in-steps", str(ratio))
+                    bad = None
+                    xs = []
+                    fed = False
+                    for t in range(T):
+                        x = (torch.rand(B, *shape, generator=g) < 0.6).to(dtype)
+                        for b in range(B):
+                            if not windows[b][0] <= t < windows[b][1]:
+                                x[b] = 0
+                        fed = fed or bool(x[order[0]].any())
+                        xs.append(x)
+                        D = rng.choice([1, 2])
+                        sel = torch.randint(0, int(2 * max(delay, dt) / dt) + 2, (B, *shape, D), generator=g).to(dtype) * (dt / 2)
+                        with torch.no_grad():
+                            o1 = [s(x[b:b + 1]) for b, s in enumerate(singles)]
+                            r1 = {"current_at": [s.current_at(sel[b:b + 1]) for b, s in enumerate(singles)],
+                                  "spike_at": [s.spike_at(sel[b:b + 1]) for b, s in enumerate(singles)]}
+                            try:
+                                reads = {"forward": (big(x), o1), "current_at": (big.current_at(sel), r1["current_at"]),
+                                         "spike_at": (big.spike_at(sel), r1["spike_at"])}
+                            except Exception as e:  # noqa: BLE001 - the batch-1 copies ran
+                                add(ex, f"C11:synapse:{kind}:batched-raises", f"{kind} (delay {delay}, {dtype}) batch {B}: the batched synapse raises "
+                                    f"{type(e).__name__} at step {t} ({str(e)[:160]}) while its batch-1 copies run",
+                                    dict(case, step=t, inputs=[v.tolist() for v in xs]))
+                                bad = (t, 0, "raises", "")
+                                break
+                        ex.evaluations += 1
+                        for nm, (rB, rs) in reads.items():
+                            for b in range(B):
+                                if rB[b:b + 1].shape != rs[b].shape or rB.dtype != rs[b].dtype or not torch.equal(rB[b:b + 1], rs[b]):
+                                    i = (rB[b:b + 1] != rs[b]).flatten().nonzero().flatten().tolist()[:1] if rB[b:b + 1].shape == rs[b].shape else []
+                                    bad = (t, b, nm, (f"batched {rB[b:b + 1].flatten()[i[0]].item()!r} vs single {rs[b].flatten()[i[0]].item()!r} at flat index {i[0]}"
+                                                      if i else f"{tuple(rB[b:b + 1].shape)}/{rB.dtype} vs {tuple(rs[b].shape)}/{rs[b].dtype}"))
+                                    break
+                            if bad:
+                                break
+                        if not bad:
+                            d = compare_snapshots(nb.snapshot({"s": big}), [nb.snapshot({"s": s}) for s in singles], B)
+                            if d:
+                                bad = (t, d[1], d[0], d[2])
+                        if bad:
+                            add(ex, f"C11:synapse:{kind}:{cat(bad[2])}", f"{kind} (delay {delay}, {dtype}, time constant {sc['tc']}, dt {dt}) batch {B}, activity "
+                                f"windows {windows}: sample {bad[1]} differs from its batch-1 copy at step {bad[0]}: {bad[2]}: {bad[3]}",
+                                dict(case, step=bad[0], sample=bad[1], entry=bad[2], inputs=[v.tolist() for v in xs]))
+                            break
+                    ex.traces_validated += 1
+                    if not bad and fed:
+                        ex.nontriv(("synapse-long", kind, delayed, json.dumps(sc), B, str(dtype), json.dumps(windows)))
+    finally:
+        torch.set_default_dtype(torch.float64)
+
+
+# ------------------------------------------------------------------------------------------ (C) connections
+WIDTHS = [24, 96, 320, 512, 768, 1024]      # presynaptic widths of the wide stream: small to "large enough that a library switches code paths"
+CONV_SIDES = [8, 16, 23, 32]
+LATERAL_DELAYED_WIDTHS = [16, 24, 48, 64]
+CONV_DELAYED_SIDES = [8, 10, 12, 16]
+
+
+def active_indices(x):
+    """compact record of a wide spike tensor: per sample, the flat indices of the active inputs"""
+    return [x[b].flatten().nonzero().flatten().tolist() for b in range(x.shape[0])]
+
+
+def connection_stream(ctx, ex, thorough, wide=False):
+    """wide=False: the small connections (3-5 inputs).  wide=True (run as the separate stream `connection-wide`, with its own PRNG):
+    the same comparison on connections whose presynaptic width ranges over two orders of magnitude (implementations may switch
+    code paths by size), batch sizes up to 5, and per-sample activity patterns — every sample is independently blank on a step
+    with probability 0.35 and may start late, so blank samples occur at ANY batch index, before and after active ones"""
+    rng = ctx.rng
+    T = (12 if thorough else 8) if wide else (20 if thorough else 10)
+    sname = "connection-wide" if wide else "connection"
     for kind in nb.CONNECTIONS:
         for delayed in (False, True):
-            for rep in range(30 if thorough else 8):
+            nrep = (8 if thorough else 4) if wide else (30 if thorough else 8)
+            if wide:
+                # delayed all-to-all lateral connections read a (batch x n x n) history per step, delayed convolutions one entry per
+                # (patch, kernel element): both are capped to keep the quick tier quick
+                pool = ((CONV_DELAYED_SIDES if delayed else CONV_SIDES) if kind == "conv"
+                        else LATERAL_DELAYED_WIDTHS if (kind == "lateral" and delayed) else WIDTHS)
+                widths = rng.sample(pool, min(nrep, len(pool)))      # without replacement: every run covers small AND large
+                widths = widths + [rng.choice(pool) for _ in range(nrep - len(widths))]
+            for rep in range(nrep):
                 exact = rep % 2 == 0 or kind == "direct"
                 # exact mode: dyadic weights and delta-type synapses make every sum exact, so torch.equal is demanded of the outputs
                 # too; otherwise (exponential synapses, arbitrary weights) the reduced output is compared to 1e-12 relative
                 dy = rep % 2 == 0
-                cc = nb.connection_cfg(rng, kind, nb.synapse_cfg(rng, rng.choice(["delta", "deltaplus"] if dy else nb.SYNAPSES)), delayed, dyadic=dy)
+                cc = nb.connection_cfg(rng, kind, nb.synapse_cfg(rng, rng.choice(["delta", "deltaplus"] if dy else nb.SYNAPSES)), delayed, dyadic=dy,
+                                       **({"n_in": widths[rep]} if wide and kind != "conv" else {}))
+                if wide and kind == "conv":
+                    cc["h"] = cc["w"] = widths[rep]
                 dt = rng.choice([0.5, 1.0])
-                B = rng.choice([2, 3])
+                B = rng.choice([2, 3, 4, 5] if wide else [2, 3])
                 g = nb.gen(rng.randrange(2**31))
                 # resized: the batched connection is built (and used for a step) at ANOTHER batch size, then brought to B through
                 # the public `batchsz` setter and cleared — anything cached per batch size must follow
@@ -274,8 +393,14 @@ def connection_stream(ctx, ex, thorough):
                     c1 = nb.build_connection(dict(cc, wseed=cc["wseed"] + 1 + b), dt, 1)    # constructed with OTHER weights
                     copy_params(big, c1)
                     singles.append(c1)
-                case = {"stream": "connection", "class": kind, "cfg": cc, "dt": dt, "batch": B, "exact": exact, "resized_from": B0 if resized else None}
-                ex.count("connection", kind + ("+delay" if delayed else ""))
+                case = {"stream": sname, "class": kind, "cfg": cc, "dt": dt, "batch": B, "exact": exact, "resized_from": B0 if resized else None}
+                ex.count(sname, kind + ("+delay" if delayed else ""))
+                if wide:
+                    ex.count("connection-wide-inputs", str(math.prod(big.inshape)))
+                    start = [rng.choice([0, 0, 1, 2, 3]) for _ in range(B)]      # per-sample late start
+                    case["start"] = start
+                pack = (lambda vs: {"active_indices_per_step_per_sample": [active_indices(v) for v in vs]}) if wide else \
+                    (lambda vs: {"inputs": [v.tolist() for v in vs]})
                 ex.count("connection-batch", "resized-by-setter" if resized else "constructed")
                 ex.count("comparison", "connection:" + ("torch.equal" if exact else "1e-12 on the reduced output"))
                 bad = None
@@ -290,6 +415,16 @@ def connection_stream(ctx, ex, thorough):
                         x = torch.zeros_like(x)
                     elif u < 0.45:
                         x[int(torch.randint(0, B, (1,), generator=g))] = 0
+                    if wide:
+                        blank = torch.rand(B, generator=g) < 0.35
+                        for b in range(B):
+                            if bool(blank[b]) or t < start[b]:
+                                x[b] = 0
+                        act = [bool(x[b].any()) for b in range(B)]
+                        if any((not act[i]) and any(act[i + 1:]) for i in range(B)):
+                            ex.count("connection-wide-pattern", "blank sample below an active one")
+                        if any((not act[i]) and any(act[:i]) for i in range(B)):
+                            ex.count("connection-wide-pattern", "blank sample above an active one")
                     xs.append(x)
                     with torch.no_grad():
                         o1 = [c(x[b:b + 1]) for b, c in enumerate(singles)]
@@ -301,7 +436,7 @@ def connection_stream(ctx, ex, thorough):
                             add(ex, f"C11:connection:{kind}:batched-raises", f"{kind}{'+delay' if delayed else ''} batch {B}"
                                 f"{' (resized from ' + str(B0) + ' by the batchsz setter)' if resized else ''}: the batched connection raises "
                                 f"{type(e).__name__} at step {t} ({str(e)[:160]}) while its batch-1 copies run",
-                                dict(case, step=t, inputs=[v.tolist() for v in xs]))
+                                dict(case, step=t, **pack(xs)))
                             bad = (t, 0, "raises", "")
                             break
                     ex.evaluations += 1
@@ -319,12 +454,13 @@ def connection_stream(ctx, ex, thorough):
                         if d:
                             bad = (t, d[1], d[0], d[2])
                     if bad and bad[2] != "raises":
-                        add(ex, f"C11:connection:{kind}:{cat(bad[2])}", f"{kind}{'+delay' if delayed else ''} batch {B}: sample {bad[1]} differs from its "
-                            f"batch-1 copy at step {bad[0]}: {bad[2]}: {bad[3]}", dict(case, step=bad[0], sample=bad[1], entry=bad[2], inputs=[v.tolist() for v in xs]))
+                        add(ex, f"C11:connection:{kind}:{cat(bad[2])}", f"{kind}{'+delay' if delayed else ''}{' (' + str(math.prod(big.inshape)) + ' inputs)' if wide else ''} "
+                            f"batch {B}: sample {bad[1]} differs from its "
+                            f"batch-1 copy at step {bad[0]}: {bad[2]}: {bad[3]}", dict(case, step=bad[0], sample=bad[1], entry=bad[2], **pack(xs)))
                         break
                 ex.traces_validated += 1
                 if not bad:
-                    ex.nontriv(("connection", kind, delayed, json.dumps(cc), B))
+                    ex.nontriv((sname, kind, delayed, json.dumps(cc), B))
 
 
 # ------------------------------------------------------------------------------------------ (L) layers / (T) trainers
@@ -524,8 +660,14 @@ def trainer_stream(ctx, ex, thorough):
                 ex.nontriv(("trainer", tk, json.dumps(tc), json.dumps(cfg)))
 
 
+def connection_wide_stream(ctx, ex, thorough):
+    connection_stream(ctx, ex, thorough, wide=True)
+
+
+# new streams are APPENDED: each stream's PRNG is drawn in this order from the run's PRNG, so earlier streams keep their cases
 STREAMS = [("neuron", neuron_stream), ("synapse", synapse_stream), ("connection", connection_stream),
-           ("layer", layer_stream), ("trainer", trainer_stream)]
+           ("layer", layer_stream), ("trainer", trainer_stream), ("synapse-long", synapse_long_stream),
+           ("connection-wide", connection_wide_stream)]
 
 
 class Sub:
